@@ -428,6 +428,16 @@ fn line(d: &Doc) -> String {
 
 pub fn gen17(r: &mut Rng, n: usize) -> Vec<String> {
     let mut out = vec![];
+    // byte-string length prefixes that no buffer can hold (above isize::MAX, at usize::MAX): an error, never a panic
+    for doc in [
+        &b"d8:announce9223372036854775808:URL4:infod6:lengthi1e4:name1:a12:piece lengthi1e6:pieces20:AAAAAAAAAAAAAAAAAAAAee"[..],
+        b"d8:announce3:URL4:infod6:lengthi1e4:name1:a12:piece lengthi1e6:pieces18446744073709551615:AAAAAAAAAAAAAAAAAAAAee",
+        b"d8:announce3:URL4:infod6:lengthi1e4:name9223372036854775809:a12:piece lengthi1e6:pieces20:AAAAAAAAAAAAAAAAAAAAee",
+        b"9999999999999999999:",
+        b"d9223372036854775808:announce3:URLe",
+    ] {
+        out.push(line(&Doc { bytes: doc.to_vec(), span: None }));
+    }
     for k in 0..n {
         if k % 40 == 39 {
             let pl = 262144usize;
@@ -483,6 +493,18 @@ pub fn gen05(r: &mut Rng, n: usize) -> Vec<String> {
                 7 => {
                     let st = r.below(3);
                     gen_doc(r, 25, st)
+                }
+                6 if k % 16 == 6 => {
+                    // the document ends inside the info value (accepted, finding C16-F1): the last one to three bytes of a
+                    // document that ends with its info dictionary are cut off
+                    let mut d = gen_doc(r, 0, 0);
+                    let cut = 1 + r.below(3) as usize;
+                    if d.bytes.len() > cut + 4 {
+                        let n = d.bytes.len() - cut;
+                        d.bytes.truncate(n);
+                        d.span = None;
+                    }
+                    d
                 }
                 _ => gen_doc(r, 0, 2),
             };
